@@ -96,6 +96,8 @@ var fnTable = map[string]func(a *fnArgs, o *ob){
 		o.int("offs", n)
 		o.key("uri")
 		o.uri(&u)
+		o.key("raw")
+		uriRaw(o, &u)
 		if e == 0 {
 			o.pf("Short", u.Short())
 			o.pf("Long", u.Long())
@@ -115,11 +117,17 @@ var fnTable = map[string]func(a *fnArgs, o *ob){
 		if e != 0 {
 			return
 		}
+		o.key("before")
+		uriRaw(o, &u)
 		ok := u.AdjustOffs(sipsp.PField{Offs: sipsp.OffsT(a.Offs), Len: sipsp.OffsT(a.Len)})
 		o.bool("ok", ok)
 		o.shift = 0
 		o.key("uri")
 		o.uri(&u)
+		o.key("raw")
+		uriRaw(o, &u)
+		o.pf("Short", u.Short())
+		o.pf("Long", u.Long())
 	},
 	"URICmp": func(a *fnArgs, o *ob) {
 		var u1, u2 sipsp.PsipURI
@@ -233,4 +241,20 @@ func sigJSON(o *ob, sig sipsp.MsgSig, se sipsp.ErrorHdr) {
 	}
 	o.b = append(o.b, ']')
 	o.str("String", sig.String())
+}
+
+// uriRaw: the exported fields exactly as stored (the offset of an empty field included) -- read by the
+// Decl predicates (spec/Judge_URI.tla), not by the drift comparison of observations
+func uriRaw(o *ob, u *sipsp.PsipURI) {
+	o.open('{')
+	for _, f := range []struct {
+		k string
+		f sipsp.PField
+	}{{"Scheme", u.Scheme}, {"User", u.User}, {"Pass", u.Pass}, {"Host", u.Host}, {"Port", u.Port}, {"Params", u.Params}, {"Headers", u.Headers}} {
+		o.key(f.k)
+		o.b = append(o.b, fmt.Sprintf("[%d,%d]", f.f.Offs, f.f.Len)...)
+	}
+	o.int("URIType", int(u.URIType))
+	o.int("PortNo", int(u.PortNo))
+	o.close('}')
 }
